@@ -52,6 +52,7 @@ type clSecDecl struct {
 }
 type clDecl struct {
 	Kind        string      `json:"kind"` // action | workflow | popular
+	Loc         string      `json:"loc"`  // directory of a local action: sub (./.github/actions/x) | root
 	Inputs      []clInDecl  `json:"inputs"`
 	Secrets     []clSecDecl `json:"secrets"`
 	Outputs     []clName    `json:"outputs"`
@@ -59,6 +60,7 @@ type clDecl struct {
 	SkipOutputs bool        `json:"skipOutputs"`
 }
 type clCall struct {
+	Uses       string   `json:"uses"` // form of the `uses:` text of a local action (clUsesText)
 	With       []clName `json:"with"`
 	ValueTypes []string `json:"valueTypes"`
 	Secrets    []clName `json:"secrets"`
@@ -186,14 +188,9 @@ func clRenderCallee(d clDecl) string {
 	return sb.String()
 }
 
+// clValueText renders a value kind of Calls.tla: "<style>:<class>" literals, expr-*, embed.
 func clValueText(kind string) string {
 	switch kind {
-	case "lit-num":
-		return "42"
-	case "lit-bool":
-		return "true"
-	case "lit-null":
-		return "null"
 	case "expr-str":
 		return "${{ 'x' }}"
 	case "expr-num":
@@ -209,7 +206,36 @@ func clValueText(kind string) string {
 	case "embed":
 		return "n-${{ 42 }}"
 	}
-	return "abc"
+	style, class := "plain", kind
+	if k := strings.IndexByte(kind, ':'); k >= 0 {
+		style, class = kind[:k], kind[k+1:]
+	}
+	text := map[string]string{"true": "true", "false": "false", "null": "null", "tilde": "~", "int": "42", "float": "1.5",
+		"hex": "0x1F", "text": "abc", "empty": "", "TRUE": "TRUE"}[class]
+	switch style {
+	case "single":
+		return "'" + text + "'"
+	case "double":
+		return "\"" + text + "\""
+	}
+	return text
+}
+
+// clUsesText is the `uses:` text of a local action for a form of Calls.tla (UsesForm)
+func clUsesText(form string) string {
+	switch form {
+	case "slash":
+		return "./.github/actions/x/"
+	case "slashdot":
+		return "./.github/actions/x/."
+	case "dotdot":
+		return "./.github/actions/../actions/x"
+	case "root":
+		return "./"
+	case "rootdot":
+		return "./."
+	}
+	return "./.github/actions/x"
 }
 
 var clIdent = regexp.MustCompile(`^[A-Za-z_][A-Za-z0-9_-]*$`)
@@ -238,12 +264,15 @@ func clRenderCaller(kind, uses string, c clCall) string {
 		}
 		return "abc"
 	}
+	if kind == "action" {
+		uses = clUsesText(c.Uses)
+	}
 	if kind == "workflow" {
 		sb.WriteString("  c:\n    uses: " + uses + "\n")
 		if len(c.With) > 0 {
 			sb.WriteString("    with:\n")
 			for i, w := range c.With {
-				sb.WriteString("      " + clYAMLKey(w.Sp) + ": " + val(i) + "\n")
+				sb.WriteString(strings.TrimRight("      "+clYAMLKey(w.Sp)+": "+val(i), " ") + "\n")
 			}
 		}
 		if c.Inherit {
@@ -266,7 +295,7 @@ func clRenderCaller(kind, uses string, c clCall) string {
 	if len(c.With) > 0 {
 		sb.WriteString("        with:\n")
 		for i, w := range c.With {
-			sb.WriteString("          " + clYAMLKey(w.Sp) + ": " + val(i) + "\n")
+			sb.WriteString(strings.TrimRight("          "+clYAMLKey(w.Sp)+": "+val(i), " ") + "\n")
 		}
 	}
 	for _, o := range c.OutputRefs {
@@ -493,8 +522,11 @@ func clRunGroup(g clGroup, base string) []clOut {
 	switch g.d.Kind {
 	case "action":
 		calleeText = clRenderAction(g.d)
-		uses = "./.github/actions/x"
-		if err := clWrite(filepath.Join(root, ".github", "actions", "x", "action.yml"), calleeText); err != nil {
+		actionDir := filepath.Join(root, ".github", "actions", "x")
+		if g.d.Loc == "root" {
+			actionDir = root
+		}
+		if err := clWrite(filepath.Join(actionDir, "action.yml"), calleeText); err != nil {
 			panic(err)
 		}
 	case "workflow":
@@ -720,9 +752,9 @@ func clBundledCalls(f clIface) []struct {
 		}
 		vt := make([]string, len(with))
 		for i := range vt {
-			vt[i] = "lit-str"
+			vt[i] = "plain:text"
 		}
-		return clCall{With: with, ValueTypes: vt, Secrets: []clName{}, OutputRefs: refs}
+		return clCall{Uses: "plain", With: with, ValueTypes: vt, Secrets: []clName{}, OutputRefs: refs}
 	}
 	var all, req []clName
 	for _, in := range f.Inputs {
